@@ -1,6 +1,6 @@
 """development driver: python3-vt dev.py <qualname> [-v]"""
-import sys, time, importlib
-sys.path.insert(0, "/verif")
+import os, sys, time, importlib
+sys.path.insert(0, os.path.dirname(os.path.abspath(__file__)))
 from pvc.front import Source
 from pvc.symex import Exec
 from pvc import solve
